@@ -108,7 +108,10 @@ func (fv *FuncVC) doCall(in ssa.Instruction, c *ssa.CallCommon, args []*Val, clo
 			if c.IsInvoke() {
 				fv.havocMod(fv.g.modOfInvoke(c), args)
 			} else {
-				fv.havocMod(map[string]bool{"*": true}, args)
+				// A-CALLBACK: a function value supplied by the caller modifies only memory reachable
+				// from the arguments it is given
+				fv.note("call of an unknown function value: havoc of the memory reachable from its arguments (A-CALLBACK)")
+				fv.havocExtTyped(args)
 			}
 		}
 		if _, isTuple := resT.(*types.Tuple); isTuple && resT.(*types.Tuple).Len() == 0 {
@@ -335,9 +338,9 @@ func (fv *FuncVC) resolveModifies(con *Contract, env *Env) []modTarget {
 						return true
 					})
 				}
-				if !found {
-					add("LOCK", "(Array Int Int)", "")
-				}
+				// no held(...) in ensures: the function is lock-neutral (returns with the locks it was
+				// entered with; checked by its own lock#balanced obligation) - LOCK is unchanged for callers
+				_ = found
 				continue
 			}
 			if gt, ok := g.spec.Ghosts[n.Name]; ok {
@@ -577,7 +580,7 @@ func (fv *FuncVC) havocExtTyped(args []*Val) {
 		}
 	}
 	for _, n := range sortedKeys(names) {
-		if fv.heapSort[n] != "" {
+		if fv.heapSort[n] != "" && n != "LOCK" {
 			fv.heapHavoc(n)
 			fv.afterHeapChange(n)
 		}
